@@ -1,15 +1,17 @@
 #!/bin/bash
-# tools/intake_round2.sh [Cxx ...]: run tools/seed_intake.py for every delivered round-2 seed (n = 3, 4) not yet filed, 3 at a time
+# tools/intake_round2.sh [Cxx ...]: run tools/seed_intake.py for every delivered seed not yet filed, 3 at a time
+# (SRC=/tmp/seedr2 NS="3 4" by default; SRC=/tmp/seedr3 NS="5 6" for the next round)
+SRC=${SRC:-/tmp/seedr2}; NS=${NS:-3 4}; LOGD=/var/tmp/intake_$(basename $SRC)
 cd /verif
 ids="${@:-C01 C02 C03 C04 C05 C06 C07 C08 C09 C10 C11 C12 C13 C14 C15 C16 C17 C18 C19 C20}"
 jobs=()
-for p in $ids; do for n in 3 4; do
-  d=/tmp/seedr2/$p/deliver/$n
+for p in $ids; do for n in $NS; do
+  d=$SRC/$p/deliver/$n
   [ -f $d/patch.diff ] && [ -f $d/demo.py ] || continue
   [ -f seeded/$p-$n/meta.json ] && continue
-  [ -f /var/tmp/intake2/$p-$n.log ] && continue
+  [ -f $LOGD/$p-$n.log ] && continue
   jobs+=("$p $n")
 done; done
-mkdir -p /var/tmp/intake2
-printf '%s\n' "${jobs[@]}" | xargs -P 3 -L 1 bash -c 'python3 tools/seed_intake.py $0 $1 /tmp/seedr2/$0/deliver $0-$1 > /var/tmp/intake2/$0-$1.log 2>&1'
-for j in "${jobs[@]}"; do set -- $j; echo "== $1-$2: $(grep -E '"valid"|"caught"' /var/tmp/intake2/$1-$2.log | tr -d '\n')"; done
+mkdir -p $LOGD
+printf '%s\n' "${jobs[@]}" | SRC=$SRC LOGD=$LOGD xargs -P 3 -L 1 bash -c 'python3 tools/seed_intake.py $0 $1 $SRC/$0/deliver $0-$1 > $LOGD/$0-$1.log 2>&1'
+for j in "${jobs[@]}"; do set -- $j; echo "== $1-$2: $(grep -E '"valid"|"caught"' $LOGD/$1-$2.log | tr -d '\n')"; done
